@@ -37,7 +37,7 @@ def recipe(c: Check):
                                         + str(st.get("null_content_probe_detail"))[:600],
                                    case="work/h_c15 nullcrash -extra Login   (child process: in-process frps, one HTTP plugin for Login, scripted login)"))
         cnt = c.cov.get("coq_counters", {}).get("plugins", {})
-        need = ["NOK", "NREJECTED", "NERROR", "NTHREADED", "NMULTI", "NHTTP", "NSYS", "NNOTIFY", "NUNREACHABLE"]
+        need = ["NOK", "NREJECTED", "NERROR", "NTHREADED", "NMULTI", "NHTTP", "NSYS", "NNOTIFY", "NUNREACHABLE", "NDUPNAMES"]
         missing = [k for k in need if cnt.get(k, 0) <= 0]
         if missing and not c.broken:
             c.broken.append(dict(kind="sanity", name="driver plugins never reached: " + ",".join(missing),
